@@ -92,6 +92,8 @@ def st_options(draw, band, allow_amp=True, center=None, method=None):
             kw['burst_kwargs'] = {'amp_threshes': draw(st.sampled_from([[0.5, 1], [1, 1.5], [0.8, 1.2]]))}
     if draw(st.integers(0, 3)) == 0:
         kw['find_extrema_kwargs'] = {'filter_kwargs': {'n_cycles': draw(st.sampled_from([2, 3, 4]))}, 'boundary': draw(st.sampled_from([0, 2]))}
+        if draw(st.booleans()):
+            kw['find_extrema_kwargs']['pad'] = False
     return kw
 
 
